@@ -13,11 +13,14 @@ open Lean Cij Cij.Wire
     An option the harness leaves out (JSON null / absent) takes the default DECLARED IN THE SOURCE (`StaticSrc.defaultOptions`,
     from the click declaration translated on this run).  With `"check_source": true` the op also interprets the translated
     blocks of `main` (`StaticSrc.run … Generated.staticBlocks`) on the same input and reports whether the result is
-    bit-identical to `runWith` (`static_model_is_source` says it always is). -/
+    bit-identical to `runWith` (`StaticSrc.run_is_source_driver` proves `runSource = runModel` for this very environment:
+    `fillViaRat` satisfies `FillFrame` because `Fill.fill` does, over every scalar type). -/
 namespace Cij.Ops.C18
 open Cij.Static Cij.LeastSq
 
-local instance : NatCast Float := ⟨Float.ofNat⟩
+/-- numpy's `float(n)`; named so that Lemmas/StaticFillDriver.lean states its theorem with this very instance -/
+def natCastFloat : NatCast Float := ⟨Float.ofNat⟩
+attribute [local instance] natCastFloat
 
 /-- the fit over `Rat`, conjugated with the exact embedding `Float → Rat` and one rounding `Rat → Float` -/
 def fitViaRat : Fit Float := fun xs ys new order =>
@@ -132,6 +135,15 @@ def data02OfJson (j : Json) : Except String (ElastDat.ElastData Float) := do
 def tableJson (t : Table Float) : List (String × Json) :=
   [("columns", jStrs (t.map (·.1))), ("values", jFloats2 (t.map (·.2)))]
 
+/-- the model run of the op `c18.run` -/
+def runModel (u : Units Float) (o : Options Float) (d1 : QhaInput.Data Float) (d2 : Option (ElastDat.ElastData Float)) :
+    Option (Out Float) := runWith fitViaRat extFloat u o d1 d2
+
+/-- the interpretation of the translated blocks of `main` on the same input (`"check_source": true`);
+    `StaticSrc.run_is_source_driver` (Lemmas/StaticFillDriver.lean): `runSource = runModel` on every input -/
+def runSource (u : Units Float) (o : Options Float) (d1 : QhaInput.Data Float) (d2 : Option (ElastDat.ElastData Float)) :
+    Option (Out Float) := StaticSrc.run ⟨fitViaRat, extFloat, u, o, d1, d2⟩ Generated.staticBlocks
+
 def handle : Handler := fun op j =>
   match op with
   | "c18.run" => some do
@@ -146,12 +158,11 @@ def handle : Handler := fun op j =>
         match (input01Columns d1).bind fun ve => eos fitViaRat extFloat o.vRatio o.ntv ve.1 ve.2 with
         | some e => [("v_array", jFloats1 e.vArray), ("f_array", jFloats1 e.fArray), ("p_array", jFloats1 e.pArray)]
         | none => []
-      let res := runWith fitViaRat extFloat u o d1 d2
+      let res := runModel u o d1 d2
       let srcJ : List (String × Json) :=
         match fieldD j "check_source" Json.null with
         | .bool true =>
-          [("source_agrees", Json.bool (sameOut res
-              (StaticSrc.run ⟨fitViaRat, extFloat, u, o, d1, d2⟩ Generated.staticBlocks)))]
+          [("source_agrees", Json.bool (sameOut res (runSource u o d1 d2)))]
         | _ => []
       match res with
       | none => pure (Json.mkObj ([("status", Json.str "error")] ++ eosJ ++ srcJ))
